@@ -157,3 +157,52 @@ func VH_C10_trigger(kind, sched int) {
 	vassert(len(in.execs) == 2, "fires-iff-live-enabled-matching")
 	vreach("end")
 }
+
+// VH_C10_disabled_location: in a disabled location no rule fires, however the event
+// addresses it: by matching (0), by id through trigger! (1), or as an embedded rule
+// through evaluate! (2).
+func VH_C10_disabled_location(kind, how int) {
+	env, in := vhDispatchEnv(kind)
+	_, err := env.loc.AddRule(env.ctx, "r1", vhRule(map[string]interface{}{"a": "?x"}, "act"))
+	vassume(err == nil)
+	_, err = env.loc.AddRule(env.ctx, "r2", Map{"schedule": "+1h", "action": vhAction("act2")})
+	vassume(err == nil)
+	_, err = env.loc.AddFact(env.ctx, "", Map{"!enabled": "no"})
+	vassume(err == nil)
+	var ev Map
+	switch how {
+	case 0:
+		ev = Map{"a": "1"}
+	case 1:
+		ev = Map{"trigger!": "r2"}
+	case 2:
+		ev = Map{"a": "1", "evaluate!": map[string]interface{}(vhRule(map[string]interface{}{"a": "?x"}, "act3"))}
+	}
+	_, cond := env.loc.ProcessEvent(env.ctx, ev)
+	vassert(len(in.execs) == 0, "disabled-location-fires-nothing")
+	vassert(cond != nil, "disabled-location-reports-error")
+	vreach("end")
+}
+
+// VH_C10_replace_sched: re-adding under the same id replaces the old rule entirely, also
+// when an event rule is replaced by a scheduled rule (which has no when): events matching
+// the former when fire nothing of it, and after its removal the other rules still fire.
+func VH_C10_replace_sched(kind int) {
+	env, in := vhDispatchEnv(kind)
+	_, err := env.loc.AddRule(env.ctx, "r1", vhRule(map[string]interface{}{"a": "?x"}, "old"))
+	vassume(err == nil)
+	_, err = env.loc.AddRule(env.ctx, "r2", vhRule(map[string]interface{}{"a": "?y"}, "other"))
+	vassume(err == nil)
+	_, err = env.loc.AddRule(env.ctx, "r1", Map{"schedule": "+1h", "action": vhAction("new")})
+	vassert(err == nil, "addrule-succeeds")
+	_, cond := env.loc.ProcessEvent(env.ctx, Map{"a": "1"})
+	vassert(cond == nil, "event-complete")
+	vassert(vhFired(in, "r1", "old") == 0 && vhFired(in, "r1", "new") == 0, "nothing-else-fires")
+	vassert(vhFired(in, "r2", "other") == 1, "fires-iff-live-enabled-matching")
+	_, err = env.loc.RemRule(env.ctx, "r1")
+	vassert(err == nil, "remrule-succeeds")
+	_, cond = env.loc.ProcessEvent(env.ctx, Map{"a": "2"})
+	vassert(cond == nil, "event-complete")
+	vassert(vhFired(in, "r2", "other") == 2, "fires-iff-live-enabled-matching")
+	vreach("end")
+}
